@@ -45,6 +45,18 @@ def gen_functions():
         out.append(("gen_fn/pair/%d" % k, "#['int, 'int] { =[a, b], [[a, %d] __integer_multiply__, b] __integer_add__ }" % k))
         out.append(("gen_fn/tuple/%d" % k, "#'int { P[x: ~, y: %d] }" % k))
         out.append(("gen_fn/bin/%d" % k, "#'int { | =%d => 0x%02x | 0x00 }" % (k, k)))
+    # partial-type patterns over values built inside the function (Ok / nil / user tuples): the
+    # type-compatibility tables of the packaged program must still answer the same
+    vals = ["Ok", "[]", "A", "A[1]", "P[x: 1]", "[1, 2]", "Ok[1]"]
+    pats = ["()", "Ok()", "A()", "(x: 'int)", "P(x: 'int)", "('int)"]
+    for vi, v in enumerate(vals):
+        for ti, t in enumerate(pats):
+            out.append(("gen_fn/partial_helper/%d_%d" % (vi, ti),
+                        "kind = #('int | %s) { | =%s => 1 | ='int => 0 }, #'int { | =0 => { %s kind } | =n => { n kind } }" % (t, t, v)))
+            out.append(("gen_fn/partial_flow/%d_%d" % (vi, ti),
+                        "#'int { { | =0 => %s | =n => n } { | =%s => 1 | 0 } }" % (v, t)))
+            out.append(("gen_fn/partial_direct/%d_%d" % (vi, ti),
+                        "#'int { =n, %s { | =%s => n | 0 } }" % (v, t)))
     for m in ("add", "mul", "div", "lt?", "min"):
         out.append(("std/num." + m, "#['%%num.opt, '%%num.opt] { %%num.%s }" % m))
     for m in ("neg", "floor", "abs", "sign"):
